@@ -8,9 +8,12 @@
 (*    [kind = "obj",  o, off, len]   a container (write_out, fm_binary)     *)
 (*    [kind = "ckpt", s, off, len]   a checkpoint (CheckpointControl::save) *)
 (* Actions = the public calls                                               *)
-(*    Write(o)   container o .write_out(FileMode::fm_binary, stream)         *)
-(*               (enabled at the end of the stream: data is appended)        *)
-(*    Seek0      stream.seekg(0)                                             *)
+(*    Write(o)   container o .write_out(FileMode::fm_binary, stream) at the  *)
+(*               current position: appended at the end, or - after a seek - *)
+(*               written OVER what is there (the stream grows only if the    *)
+(*               new bytes run past its end; partly overwritten segments are *)
+(*               no longer readable, their remaining bytes stay)             *)
+(*    Seek(k,w)  stream.seekg / seekp (start of segment k)                   *)
 (*    Read       a fresh container .read_from(fm_binary, stream) at the      *)
 (*               current position (a container segment starts there)         *)
 (*    Clear      stream.clear(): empty AND position 0 - the stream is as new *)
@@ -18,7 +21,7 @@
 (*    Load       a fresh CheckpointControl .load(stream) + restore of every  *)
 (*               object (load reads from the first byte of the stream)       *)
 (* TLC explores every history of MaxSteps calls; invariants: ReadRight,      *)
-(* LoadRight (what is read is what was written there), SizeIsSum, and        *)
+(* LoadRight (what is read is what was written there), SizeOK, NoOverlap, and        *)
 (* ClearedIsNew.  Emit prints each complete history with the predicted       *)
 (* stream size, position and segment layout after every call.                *)
 EXTENDS PersistFmt, Json, TLC
@@ -26,8 +29,8 @@ EXTENDS PersistFmt, Json, TLC
 CONSTANTS MaxSteps,    \* length of the histories
           CDT, CIT     \* data / index type width of the containers (bytes)
 
-VARIABLES segs, pos, hist
-vars == <<segs, pos, hist>>
+VARIABLES segs, size, pos, hist
+vars == <<segs, size, pos, hist>>
 
 Mk(kind, mm, nn, rep, al) == [kind |-> kind, m |-> mm, n |-> nn, bh |-> 1, bw |-> 1, rep |-> rep, alloc |-> al]
 D23 == << <<3, -6, 7>>, <<-8, 11, -10>> >>
@@ -44,51 +47,64 @@ CkEntries(s) == [k \in 1..Len(CkptSets[s]) |-> [id |-> CkptSets[s][k][1], idlen 
                                                  len |-> CkBin(CkptSets[s][k][3]).len, bin |-> CkBin(CkptSets[s][k][3])]]
 CkTotal(s) == SumSeq([k \in 1..Len(CkptSets[s]) |-> 8 + CkEntries(s)[k].idlen + 8 + CkEntries(s)[k].len])
 
-Size == IF Len(segs) = 0 THEN 0 ELSE segs[Len(segs)].off + segs[Len(segs)].len
-Step(op, arg, off, res) == [op |-> op, arg |-> arg, off |-> off, res |-> res]
+Max2(a, b) == IF a < b THEN b ELSE a
 Going == Len(hist) < MaxSteps
-
-Init == segs = <<>> /\ pos = 0 /\ hist = <<>>
+\* the segments that survive a write of len bytes at byte off: those it does not touch.  A segment that is partly
+\* overwritten is no longer a readable object; its remaining bytes stay in the stream (the size never shrinks).
+Untouched(off, len) == SelectSeq(segs, LAMBDA g : g.off + g.len <= off \/ off + len <= g.off)
+\* the writing calls are made at the end of the stream (append) or at the start of a segment (overwrite after a seek)
+\* or directly behind the bytes just written / read (pos is only ever moved by these calls)
+Init == segs = <<>> /\ size = 0 /\ pos = 0 /\ hist = <<>>
 
 Write(o) ==
-  /\ Going /\ pos = Size
-  /\ segs' = Append(segs, [kind |-> "obj", o |-> o, off |-> pos, len |-> ObjBin(o).len])
-  /\ pos' = pos + ObjBin(o).len
-  /\ hist' = Append(hist, [op |-> "write", arg |-> o, off |-> pos, size |-> pos + ObjBin(o).len, pos |-> pos + ObjBin(o).len, res |-> <<>>])
-Seek0 ==
-  /\ Going /\ Size > 0 /\ pos # 0
-  /\ pos' = 0 /\ UNCHANGED segs
-  /\ hist' = Append(hist, [op |-> "seek0", arg |-> 0, off |-> 0, size |-> Size, pos |-> 0, res |-> <<>>])
+  /\ Going
+  /\ LET len == ObjBin(o).len IN
+     /\ segs' = Append(Untouched(pos, len), [kind |-> "obj", o |-> o, off |-> pos, len |-> len])
+     /\ size' = Max2(size, pos + len)
+     /\ pos' = pos + len
+     /\ hist' = Append(hist, [op |-> "write", arg |-> o, off |-> pos, size |-> Max2(size, pos + len), pos |-> pos + len, res |-> <<>>])
+\* seekg / seekp to the start of a segment (the stream has ONE position: both calls move it)
+Seek(k, which) ==
+  /\ Going /\ k \in 1..Len(segs) /\ segs[k].off # pos
+  /\ pos' = segs[k].off /\ UNCHANGED <<segs, size>>
+  /\ hist' = Append(hist, [op |-> which, arg |-> segs[k].off, off |-> segs[k].off, size |-> size, pos |-> segs[k].off, res |-> <<>>])
 Read ==
   /\ Going
   /\ \E k \in 1..Len(segs) :
        /\ segs[k].off = pos /\ segs[k].kind = "obj"
-       /\ pos' = pos + segs[k].len /\ UNCHANGED segs
-       /\ hist' = Append(hist, [op |-> "read", arg |-> segs[k].o, off |-> pos, size |-> Size, pos |-> pos + segs[k].len,
+       /\ pos' = pos + segs[k].len /\ UNCHANGED <<segs, size>>
+       /\ hist' = Append(hist, [op |-> "read", arg |-> segs[k].o, off |-> pos, size |-> size, pos |-> pos + segs[k].len,
                                 res |-> <<ReadBin(ObjBin(segs[k].o))>>])
 Clear ==
-  /\ Going /\ Size > 0
-  /\ segs' = <<>> /\ pos' = 0
+  /\ Going /\ size > 0
+  /\ segs' = <<>> /\ size' = 0 /\ pos' = 0
   /\ hist' = Append(hist, [op |-> "clear", arg |-> 0, off |-> 0, size |-> 0, pos |-> 0, res |-> <<>>])
 Save(s) ==
-  /\ Going /\ pos = Size
-  /\ segs' = Append(segs, [kind |-> "ckpt", o |-> s, off |-> pos, len |-> 8 + CkTotal(s)])
-  /\ pos' = pos + 8 + CkTotal(s)
-  /\ hist' = Append(hist, [op |-> "save", arg |-> s, off |-> pos, size |-> pos + 8 + CkTotal(s), pos |-> pos + 8 + CkTotal(s), res |-> <<>>])
+  /\ Going
+  /\ LET len == 8 + CkTotal(s) IN
+     /\ segs' = Append(Untouched(pos, len), [kind |-> "ckpt", o |-> s, off |-> pos, len |-> len])
+     /\ size' = Max2(size, pos + len)
+     /\ pos' = pos + len
+     /\ hist' = Append(hist, [op |-> "save", arg |-> s, off |-> pos, size |-> Max2(size, pos + len), pos |-> pos + len, res |-> <<>>])
+\* load reads the whole stream from its first byte: defined when the stream IS one checkpoint
 Load ==
-  /\ Going /\ Len(segs) > 0 /\ segs[1].kind = "ckpt"
-  /\ UNCHANGED <<segs, pos>>
-  /\ hist' = Append(hist, [op |-> "load", arg |-> segs[1].o, off |-> 0, size |-> Size, pos |-> pos,
-                           res |-> [k \in 1..Len(CkptSets[segs[1].o]) |-> ReadBin(CkEntries(segs[1].o)[k].bin)]])
+  /\ Going
+  /\ \E k \in 1..Len(segs) :
+       /\ segs[k].kind = "ckpt" /\ segs[k].off = 0 /\ segs[k].len = size
+       /\ UNCHANGED <<segs, size, pos>>
+       /\ hist' = Append(hist, [op |-> "load", arg |-> segs[k].o, off |-> 0, size |-> size, pos |-> pos,
+                                res |-> [j \in 1..Len(CkptSets[segs[k].o]) |-> ReadBin(CkEntries(segs[k].o)[j].bin)]])
 
-Next == (\E o \in 1..Len(Palette) : Write(o)) \/ Seek0 \/ Read \/ Clear \/ (\E s \in 1..Len(CkptSets) : Save(s)) \/ Load
+Next == (\E o \in 1..Len(Palette) : Write(o)) \/ (\E k \in 1..Len(segs), w \in {"seekg", "seekp"} : Seek(k, w)) \/ Read \/ Clear
+        \/ (\E s \in 1..Len(CkptSets) : Save(s)) \/ Load
 Spec == Init /\ [][Next]_vars
 
 \* ---- properties ----------------------------------------------------------------------------------------
 ReadRight == \A k \in 1..Len(hist) : hist[k].op = "read" => hist[k].res = <<Arrays(Palette[hist[k].arg])>>
 LoadRight == \A k \in 1..Len(hist) : hist[k].op = "load" =>
                hist[k].res = [j \in 1..Len(CkptSets[hist[k].arg]) |-> Arrays(Palette[CkptSets[hist[k].arg][j][3]])]
-SizeIsSum == Size = SumSeq([k \in 1..Len(segs) |-> segs[k].len]) /\ pos <= Size
+SizeOK == pos <= size /\ \A k \in 1..Len(segs) : segs[k].off + segs[k].len <= size
+NoOverlap == \A j, k \in 1..Len(segs) : j # k => (segs[j].off + segs[j].len <= segs[k].off \/ segs[k].off + segs[k].len <= segs[j].off)
 ClearedIsNew == \A k \in 1..Len(hist) : hist[k].op = "clear" => hist[k].size = 0 /\ hist[k].pos = 0
 \* after a clear, the next write starts at byte 0 again
 WriteAfterClear == \A k \in 2..Len(hist) : hist[k-1].op = "clear" /\ hist[k].op \in {"write", "save"} => hist[k].off = 0
